@@ -110,6 +110,9 @@ func main() {
 				ch = rw.yields(f, true) || ch
 			} else {
 				ch = rw.yields(f, false) || ch
+				if !strings.HasSuffix(fname, ".pb.go") && !strings.HasSuffix(p.PkgPath, "/math") && !strings.Contains(p.PkgPath, "/simd") && !strings.HasSuffix(p.PkgPath, "/index/space") {
+					ch = rw.entryYields(f) || ch
+				}
 			}
 			ch = rw.knobs(f) || ch
 			if ch {
@@ -426,6 +429,27 @@ func (rw *rewriter) yields(f *ast.File, index bool) bool {
 		}
 		return true
 	})
+	return changed
+}
+
+// entryYields (R2b): a yield point at the entry of every function and method (site -100:
+// the simulator gives these a lower probability). Between a check and the act that
+// relies on it there is, more often than not, a call - where a thread can lose the CPU.
+func (rw *rewriter) entryYields(f *ast.File) bool {
+	changed := false
+	for _, d := range f.Decls {
+		fd, ok := d.(*ast.FuncDecl)
+		if !ok || fd.Body == nil || len(fd.Body.List) == 0 {
+			continue
+		}
+		if fd.Name.Name == "init" || strings.HasPrefix(fd.Name.Name, "Verif") || strings.HasPrefix(fd.Name.Name, "verif") {
+			continue
+		}
+		fd.Body.List = append([]ast.Stmt{yieldStmt(-100)}, fd.Body.List...)
+		changed = true
+		rw.needSimrt = true
+		rw.stats["R2b function-entry yield points"]++
+	}
 	return changed
 }
 
